@@ -3,7 +3,7 @@
 NOTES = ('All checks are ./check <id>; each rebuilds a source-only overlay from /repo working tree, re-extracts the functions under contract '
          'and regenerates every obligation.  Bounded stand-ins are reported separately in each evidence file and never counted as proved.  '
          'Known findings: /verif/known_findings.json (open findings matched by obligation id [+ path labels]; "fixed:" entries name the fix: commits in /repo '
-         'and suppress nothing).  Seeded changes used to test the checks: /verif/seeded/.  Exit codes: 0 held, 1 violation, 2 undecided, 3 checker problem / vacuity.')
+         'and suppress nothing).  Callee contracts that belong to another property are re-checked with the property that assumes them (`deps`).  Seeded changes used to test the checks: /verif/seeded/ (tools/rerun_seeds.sh); behaviour-preserving refactorings that must stay green: /verif/harmless, /verif/harmless2 (tools/try_harmless.sh).  Exit codes: 0 held, 1 violation, 2 undecided, 3 checker problem / vacuity.')
 
 NOT_CLAIMED = {}
 
